@@ -1,10 +1,12 @@
 #!/bin/sh
 # usage: replay.sh <replay-file>   -- re-executes one recorded case in a fresh process
-export GOFLAGS=-mod=mod GOPROXY=off GOSUMDB=off GOTOOLCHAIN=local TZ=UTC
 VERIF_DIR="$(cd "$(dirname "$0")" && pwd)"; export VERIF_DIR
-cd "$VERIF_DIR/sim" || exit 2
-RACE=""; BIN="$VERIF_DIR/.build/ottosim"
-if grep -q '"race": *true' "$1" 2>/dev/null; then RACE="-race"; BIN="$VERIF_DIR/.build/ottosim_race"; fi
-go build -tags verif $RACE -o "$BIN" . || exit 2
-case "$1" in /*) F="$1";; *) F="$OLDPWD/$1";; esac
-exec "$BIN" replay "$F"
+case "$1" in /*) F="$1";; *) F="$(pwd)/$1";; esac
+. "$VERIF_DIR/build.sh"
+build_plain || exit 2
+if grep -q '"race": *true' "$F" 2>/dev/null; then
+  build_race || exit 2
+  export GORACE="halt_on_error=1 exitcode=66"
+  exec "$VERIF_DIR/.build/ottosim" replay "$F" --childbin "$VERIF_DIR/.build/ottosim_race"
+fi
+exec "$VERIF_DIR/.build/ottosim" replay "$F"
